@@ -75,7 +75,7 @@ def _alarm(signum, frame):
     raise OpTimeout("no result after %d s (the while-loop of _find_intersection_nodes does not terminate)" % OP_TIMEOUT)
 
 
-OP_TIMEOUT = 4
+OP_TIMEOUT = 2
 signal.signal(signal.SIGALRM, _alarm)
 
 
@@ -103,6 +103,14 @@ def run_op(p1, p2, name):
     return out
 
 
+def turn(arc1, arc2):
+    """arc1.angle(arc2) the way _find_intersection_nodes asks for it (unsnapped where Arc.angle offers that)"""
+    try:
+        return arc1.angle(arc2, snap=False)
+    except TypeError:
+        return arc1.angle(arc2)
+
+
 def table(p1, p2):
     """Crossing table of the ordered pair (p1, p2) from Arc.intersection with the filters of get_next_intersection."""
     arcs1 = list(p1.aedges())
@@ -122,8 +130,8 @@ def table(p1, p2):
                 continue
             if x12 is None:
                 continue
-            s12 = float(np.sign(Arc(x12, a1.end).angle(Arc(x12, a2.end))))
-            s21 = float(np.sign(Arc(x21, a2.end).angle(Arc(x21, a1.end))))
+            s12 = float(np.sign(turn(Arc(x12, a1.end), Arc(x12, a2.end))))
+            s21 = float(np.sign(turn(Arc(x21, a2.end), Arc(x21, a1.end))))
             rows.append({"e1": i, "e2": j, "d1": float(a1.start.distance(x12)), "d2": float(a2.start.distance(x21)),
                          "s12": s12, "s21": s21, "p": [float(x12.lon), float(x12.lat)], "q": [float(x21.lon), float(x21.lat)]})
     out = {"rows": rows, "asym": asym}
